@@ -16,9 +16,10 @@ import DSymVerif.Proofs.LowIndex
 import DSymVerif.Proofs.LowIndexSound
 import DSymVerif.Proofs.Rebase
 import DSymVerif.Proofs.LowIndexValid
+import DSymVerif.Proofs.LowIndexCanon6
 
 namespace DSymVerif.C12
-open DSymVerif DSymVerif.Cosets DSymVerif.LowIndexP DSymVerif.SpecC11 DSymVerif.SpecC12 DSymVerif.RebaseP DSymVerif.CosetInvP
+open DSymVerif DSymVerif.Cosets DSymVerif.LowIndexP DSymVerif.SpecC11 DSymVerif.SpecC12 DSymVerif.RebaseP DSymVerif.CosetInvP DSymVerif.CanonP
 
 /-- ✔ `backtrack_preorder` (generic, shared with C06/C07): for a search tree of finite
     height the model of `BackTrackIterator`, run with at least as much fuel as the tree has
@@ -139,6 +140,51 @@ theorem derived_table_relators_close (maxRows n : Nat) (rels R : List (List Int)
     (hd : dst < t.len ∨ (dst = t.len ∧ frm < dst)) (hdm : dst < maxRows)
     (h : derivedTable t R frm dst g = .ok (some t')) : SInv maxRows n rels t' :=
   (derivedTable_sinv hrot hwr hwR s hg hf hd hdm h).1
+
+/-- ✔ `renumbered_compare_spec`: for a standard table `T1` (every row has a creation slot before
+    which, in row-major order, everything is defined and smaller: `CS`) and an isomorphism
+    `σ : T1 → T2` of complete tables, `compare_renumbered_from(T2, σ 0)` returns the first
+    non-zero difference `T1[slot] − T2[slot]` in row-major order — the on-the-fly renumbering
+    of `T2` from the base point `σ 0` reproduces `T1`, and the result is the lexicographic
+    comparison of the renumbered table with the table itself. -/
+theorem renumbered_compare_spec (T1 T2 : Table) (σ : Nat → Nat) (N : Nat) (h : IsoStd T1 T2 σ N)
+    (hN : 0 < N) :
+    compareRenumberedFrom T2 (σ 0) = .ok (fdRows T1 T2 T1.allGens (List.range N)) :=
+  compareRenumberedFrom_iso h hN
+
+/-- ✔ **soundness of the pruning** (the D15 repair, proved): a table `P` all of whose defined
+    entries are entries of a table `T` that passes `is_canonical` passes `is_canonical` itself
+    — a negative comparison on `P` would be reproduced with the same value on `T`, because an
+    undefined entry never yields a negative value.  Hence no search state that has a canonical
+    completion is pruned. -/
+theorem pruning_sound (P T : Table) (hsub : Sub P T)
+    (hrange : ∀ c g d, g ∈ P.allGens → P.get c g = .ok (some d) → d < P.len)
+    (htot : ∀ c g, g ∈ P.allGens → P.get c g = .ok none ∨ ∃ d, P.get c g = .ok (some d))
+    (h : isCanonical T = .ok true) : isCanonical P = .ok true :=
+  isCanonical_sub hsub hrange htot h
+
+/-- ✔ every search state is standard (`CS`), and every state but the empty table has passed
+    `is_canonical` -/
+theorem search_states_standard (n : Nat) (rels : List (List Int)) (k : Nat)
+    (hcr : ∀ ρ ∈ rels, ρ = [] ∨ FWP.CR ρ) (hlet : ∀ w ∈ rels, ∀ x ∈ w, x ∈ allGensOf n) (t : Table)
+    (hr : BT.Reach (btProblem n (expandedRelatorSet rels) k) (.ok (Table.new n)) (.ok t)) :
+    SInv2 k n rels t :=
+  reach_sinv2 (rotClosed_expanded hcr) hlet
+    (expandedRelatorSet_letters (S := fun y => y ∈ allGensOf n) (fun y hy => neg_mem_allGensOf hy) hlet)
+    hr (fun t0 h0 => by injection h0 with h0; exact h0 ▸ ⟨sinv_new k n rels, cs_new n⟩) t rfl
+
+/-- ✔ **irredundancy**: for relators that are empty or cyclically reduced, no two tables at
+    different positions of the sequence yielded by the model of `coset_tables` are isomorphic
+    (`TIso`: a bijection of the rows commuting with every generator) — each conjugacy class
+    of subgroups is listed at most once.  Core: two complete standard tables that both pass
+    `is_canonical` and are isomorphic have identical entries (`CanonP.iso_canonical_eq`), and
+    the children of a state differ in the value of its first free slot. -/
+theorem coset_tables_irredundant (n : Nat) (rels : List (List Int)) (k fuel : Nat)
+    (hcr : ∀ ρ ∈ rels, ρ = [] ∨ FWP.CR ρ) (hlet : ∀ w ∈ rels, ∀ x ∈ w, x ∈ allGensOf n)
+    (hf : (BT.dfs (btProblem n (expandedRelatorSet rels) k) (height k) (.ok (Table.new n))).length ≤ fuel) :
+    (cosetTables n rels k fuel).Pairwise
+      (fun x y => ∀ t1 t2, x = .ok t1 → y = .ok t2 → ¬ TIso n t1 t2) :=
+  cosetTables_irredundant n rels k fuel hcr hlet hf
 
 /-- ○ `rebase_min_invariant`: the Spec's `canonicalForm` (minimum over all base points of
     the BFS-renumbered table) is a complete invariant of a table up to isomorphism
